@@ -1,16 +1,22 @@
 #!/usr/bin/env python3
 # Import confirmed seeded changes into /verif/seeded/<id>/ (patch.diff, demo_test.go, meta.json).
-import json, os, shutil, re, sys
+import json, os, shutil, re, sys, glob
+# usage: seed_import.py [round-dir=/tmp/mut] [suffix='']  (round 2: /tmp/mut2 r2)
+ROOT = sys.argv[1] if len(sys.argv) > 1 else '/tmp/mut'
+SUF = sys.argv[2] if len(sys.argv) > 2 else ''
 ver = {}
-for l in open('/tmp/mut/verify/all.txt'):
+lines = []
+for f in sorted(glob.glob(ROOT + '/verify/*.txt')):
+    lines += open(f).read().splitlines()
+for l in lines:
     p = l.split()
     if len(p) > 1 and p[1].startswith('confirmed='):
         ver[p[0]] = l.strip()
 os.makedirs('/verif/seeded', exist_ok=True)
-for prop in sorted(os.listdir('/tmp/mut/out')):
+for prop in sorted(os.listdir(ROOT + '/out')):
     for m in ('m1', 'm2'):
-        src = f'/tmp/mut/out/{prop}/{m}'
-        key = f'{prop}-{m}'
+        src = f'{ROOT}/out/{prop}/{m}'
+        key = f'{prop}-{SUF}{m}'
         if not os.path.exists(src + '/patch.diff') or 'confirmed=1' not in ver.get(key, ''):
             print('skip', key, ver.get(key)); continue
         dst = f'/verif/seeded/{key}'
